@@ -1,7 +1,9 @@
-"""Real-process scenarios for C06 (forced shutdown kills and reaps whole trees, with and without psutil) and C02 (abrupt death of
-a worker: every unresolved future fails with TerminatedWorkerError naming the exit codes, later submits raise, workers reaped)."""
+"""H21: descendants forked while kill_process_tree sweeps a worker's tree survive shutdown(kill_workers=True).
+usage: PYTHONPATH=/repo /venv/bin/python findings/H21_real.py <psutil 0|1> <trials> <seconds between forks>
+prints, per forced shutdown: children alive at the call, survivors among them (expected 0), survivors forked during the sweep."""
+import sys
+sys.argv = [sys.argv[0], "forkstorm", sys.argv[2] if len(sys.argv) > 2 else "2", sys.argv[1] if len(sys.argv) > 1 else "0", sys.argv[3] if len(sys.argv) > 3 else "0.02"]
 
-SCRIPT = r'''
 import json, os, signal, subprocess, sys, time, warnings
 warnings.simplefilter("ignore")
 
@@ -292,4 +294,3 @@ if __name__ == "__main__":
         out = death(sys.argv[2], int(sys.argv[3]), int(sys.argv[4]))
     import shutil; shutil.rmtree(d, ignore_errors=True)
     print(json.dumps(out))
-'''
